@@ -384,7 +384,7 @@ def main(run):
     # such a class reproduces on this tree for that subcommand (81) / while a name-collision finding reproduces (82)
     open_buggy = {f["id"] for f in run.findings() if f.get("status") != "fixed" and outcome.get(f["id"]) == "buggy"}
     name_classes = {"K_opt_short_collision", "K_ctor_method_name_collision", "K_ctor_camel_collision", "K_rest_unexported_iface"}
-    by_cmd = {"new": ("K_ctor_", "K_opt_", "K_json_"), "enum": ("K_enum_", "K_bit_"), "rest": ("K_rest_",), "map": ("K_map_",)}
+    by_cmd = {"new": ("K_ctor_", "K_opt_", "K_json_", "K_getset_"), "enum": ("K_enum_", "K_bit_"), "rest": ("K_rest_",), "map": ("K_map_",)}
     excused, unexcused = [], []
     for idx, v in mism_all:
         if v // 10 != 8:
